@@ -773,7 +773,11 @@ pub fn replay(out: &str, seed: u64, files: &[String]) -> i32 {
             let b: serde_json::Value = serde_json::from_str(line).expect("bad behaviour json");
             let kind = b.get("kind").and_then(|x| x.as_str()).unwrap_or("map");
             let layout = b.get("layout").and_then(|x| x.as_str()).unwrap_or("kv16").to_string();
-            let name = format!("replay:{}:{}", f.rsplit('/').next().unwrap_or(f), i);
+            let mut name = format!("replay:{}:{}", f.rsplit('/').next().unwrap_or(f), i);
+            if let Some(nk) = b.get("churn_nk").and_then(|x| x.as_u64()) {
+                // bounded-live-size churn: the header carries the bound for the allocation check of C13
+                name = format!("map:kv16:goal:{}:0:churn", nk);
+            }
             let rc = match kind {
                 "map" => dispatch_map!(layout.as_str(), replay_map, &b, &name, seed, &mut tr),
                 "set" => dispatch_set!(layout.as_str(), replay_set, &b, &name, seed, &mut tr),
